@@ -576,9 +576,9 @@ theorem mem_matrix {c : Cell} {xs ys : List Indi} {o : SimOpts} (h : c ∈ matri
   subst e
   exact ⟨ha, hb, rfl⟩
 
-theorem winners_mem {m : Rat} {cs : List Cell} {found : List Nat} {c : Cell}
-    (h : c ∈ winners m cs found) : c ∈ cs := by
-  induction cs generalizing found with
+theorem winners_mem {m : Rat} {cs : List Cell} {fa fb : List Nat} {c : Cell}
+    (h : c ∈ winners m cs fa fb) : c ∈ cs := by
+  induction cs generalizing fa fb with
   | nil => simp [winners] at h
   | cons d ds ih =>
     simp only [winners] at h
@@ -591,23 +591,23 @@ theorem winners_mem {m : Rat} {cs : List Cell} {found : List Nat} {c : Cell}
         · exact List.mem_cons_of_mem _ (ih h')
 
 /-- every winner takes a left individual that no earlier winner took -/
-theorem winners_nodup (m : Rat) (cs : List Cell) (found : List Nat) :
-    ((winners m cs found).map (fun c => c.a.id)).Nodup ∧
-    ∀ c ∈ winners m cs found, c.a.id ∉ found := by
-  induction cs generalizing found with
+theorem winners_nodup (m : Rat) (cs : List Cell) (fa fb : List Nat) :
+    ((winners m cs fa fb).map (fun c => c.a.id)).Nodup ∧
+    ∀ c ∈ winners m cs fa fb, c.a.id ∉ fa := by
+  induction cs generalizing fa fb with
   | nil => simp [winners]
   | cons d ds ih =>
     simp only [winners]
     split
     · simp
     · split
-      · exact ih found
+      · exact ih fa fb
       · rename_i hf
-        have hd : d.a.id ∉ found := by
+        have hd : d.a.id ∉ fa := by
           intro hmem
           apply hf
           simp [hmem]
-        obtain ⟨h1, h2⟩ := ih (d.a.id :: d.b.id :: found)
+        obtain ⟨h1, h2⟩ := ih (d.a.id :: fa) (d.b.id :: fb)
         constructor
         · simp only [List.map_cons, List.nodup_cons]
           refine ⟨?_, h1⟩
@@ -625,9 +625,9 @@ theorem winners_nodup (m : Rat) (cs : List Cell) (found : List Nat) :
             simp [hmem]
 
 theorem winners_length_le (m : Rat) (xs ys : List Indi) (o : SimOpts) :
-    (winners m (sortDesc (matrix xs ys o)) []).length ≤ xs.length := by
-  have h := (winners_nodup m (sortDesc (matrix xs ys o)) []).1
-  have hsub : (winners m (sortDesc (matrix xs ys o)) []).map (fun c => c.a.id) ⊆ xs.map (fun x => x.id) := by
+    (winners m (sortDesc (matrix xs ys o)) [] []).length ≤ xs.length := by
+  have h := (winners_nodup m (sortDesc (matrix xs ys o)) [] []).1
+  have hsub : (winners m (sortDesc (matrix xs ys o)) [] []).map (fun c => c.a.id) ⊆ xs.map (fun x => x.id) := by
     intro i hi
     obtain ⟨c, hc, e⟩ := List.mem_map.mp hi
     have := (mem_matrix (mem_sortDesc.mp (winners_mem hc))).1
@@ -657,14 +657,14 @@ theorem listSimilarity_bounds' (xs ys : List Indi) (o : SimOpts) (ho : o.Valid) 
     · rename_i h1 h2
       simp only
       have hw := winners_length_le o.minimumSimilarity xs ys o
-      have hs := sumSims_bounds (winners o.minimumSimilarity (sortDesc (matrix xs ys o)) []) (by
+      have hs := sumSims_bounds (winners o.minimumSimilarity (sortDesc (matrix xs ys o)) [] []) (by
         intro c hc
         have := mem_matrix (mem_sortDesc.mp (winners_mem hc))
         rw [this.2.2]
         exact indiSimilarity_bounds _ _ o ho)
       have hn : 0 < max xs.length ys.length := by omega
       have hnq : (0 : Rat) < ((max xs.length ys.length : Nat) : Rat) := Rat.natCast_pos.mpr hn
-      have hwn : ((winners o.minimumSimilarity (sortDesc (matrix xs ys o)) []).length : Rat) ≤
+      have hwn : ((winners o.minimumSimilarity (sortDesc (matrix xs ys o)) [] []).length : Rat) ≤
           ((max xs.length ys.length : Nat) : Rat) := natCast_le_rat (by omega)
       constructor
       · apply rat_div_nonneg _ (Rat.le_of_lt hnq); grind
